@@ -154,6 +154,42 @@ func returnOutcomes(fn *ssa.Function, val map[string]int64) (accept, reject bool
 	return
 }
 
+// returnedUnder: the values fn can return at result idx under the valuation (path-sensitive); a result variable (a phi
+// in the return block) contributes the incoming values of the edges actually taken.
+func returnedUnder(fn *ssa.Function, idx int, val map[string]int64) []ssa.Value {
+	reach := psReachVal(fn, []*ssa.BasicBlock{fn.Blocks[0]}, nil, val)
+	edges := lastPsEdges
+	var out []ssa.Value
+	seen := map[ssa.Value]bool{}
+	add := func(v ssa.Value) {
+		if !seen[v] {
+			seen[v] = true
+			out = append(out, v)
+		}
+	}
+	var expand func(v ssa.Value, d int)
+	expand = func(v ssa.Value, d int) {
+		if ph, isPhi := v.(*ssa.Phi); isPhi && d < 4 {
+			b := ph.Block()
+			for i, e := range ph.Edges {
+				if reach[b.Preds[i]] && edges[[2]*ssa.BasicBlock{b.Preds[i], b}] {
+					expand(e, d+1)
+				}
+			}
+			return
+		}
+		add(v)
+	}
+	for _, b := range fn.Blocks {
+		r, ok := b.Instrs[len(b.Instrs)-1].(*ssa.Return)
+		if !ok || !reach[b] || idx >= len(r.Results) {
+			continue
+		}
+		expand(returnedValue(r, idx), 0)
+	}
+	return out
+}
+
 // acceptsUnder: some success return of fn is reachable under the valuation (path-sensitive).
 func acceptsUnder(fn *ssa.Function, val map[string]int64) bool {
 	a, _ := returnOutcomes(fn, val)
